@@ -33,3 +33,8 @@ Lemma ob_dialvia_ops :
 Proof. vm_compute. reflexivity. Qed.
 Lemma ob_connect_header_source : connect_header_source = b "req.Header.Clone()".
 Proof. vm_compute. reflexivity. Qed.
+
+(* requests read from an intercepted TLS session are forced to https BEFORE the request modifiers
+   run, so the site-credential lookup sees the scheme (hence the default port) of the real target *)
+Lemma ob_mitm_https_before_modifiers : mitm_forces_https = true /\ mitm_https_before_modifiers = true.
+Proof. vm_compute. split; reflexivity. Qed.
